@@ -615,7 +615,13 @@ def draw_case(d, kinds=None, *, degenerate=False, general_position=False,
             and int(aux3.integers(0, 3)) < (2 if case.meta.get('frames') == 'many' else 1):
         # a hard partition as the caller may store it: boolean or small integers
         dt = [np.int8, np.bool_, np.int64, np.float32, np.int8][int(aux3.integers(0, 5))]
+        if dt is np.float32 and not single_precision:
+            # (a single-precision start makes the whole fit single precision:
+            # only where the caller judges with single-precision tolerances)
+            dt = np.int64
         case.init = case.init.astype(dt)
+        if dt is np.float32:
+            case.meta['single'] = True
         ik += ':' + np.dtype(dt).name
     case.meta['init'] = ik
     case.iterations = d.int(1, max_iterations)
